@@ -193,11 +193,23 @@ func (c03NoDeps) FindDependencies(fsys fs.FS, subPath string, deps *sourcebundle
 // c03BundleFiles builds a one-package bundle from dir and lists the files of
 // the package directory.
 func c03BundleFiles(from string) (map[string]bool, error) {
+	return c03BundleFilesWith(func(target string) error { return c03Copy(from, target) })
+}
+
+type c03FuncFetcher struct{ f func(string) error }
+
+func (f c03FuncFetcher) FetchSourcePackage(ctx context.Context, sourceType string, u *url.URL, targetDir string) (sourcebundle.FetchSourcePackageResponse, error) {
+	return sourcebundle.FetchSourcePackageResponse{}, f.f(targetDir)
+}
+
+// c03BundleFilesWith builds a one-package bundle whose content the given
+// function writes, and lists the files of the package directory.
+func c03BundleFilesWith(fill func(target string) error) (map[string]bool, error) {
 	target := "/c03/bundle"
 	if err := freshDir(target); err != nil {
 		return nil, err
 	}
-	b, err := sourcebundle.NewBuilder(target, c03Fetcher{from: from}, nil)
+	b, err := sourcebundle.NewBuilder(target, c03FuncFetcher{f: fill}, nil)
 	if err != nil {
 		return nil, err
 	}
